@@ -29,7 +29,39 @@ def calculateLivein {D : Type} (dom : Tealer.Domain D) (univ : D) (self : Tealer
     livein_information := (dom.inter livein_information (liveout (block.subReturnPoint.getD 0)))
   return livein_information
 
--- _block_level_constraints could not be translated: truth value of a oiv: value
+/-- translated from DataflowTransactionContext._block_level_constraints for one key: the value of self._block_contexts[key][block] when the function returns; `getAsserted v` = self._get_asserted(key, v) -/
+def blockLevelConstraints {D : Type} (E : Tealer.PyView.Env) (dom : Tealer.Domain D) (univ : D) (getAsserted : Tealer.PySV → D × D) (self : Tealer.PyView.Env) (key : Tealer.Key) (block : Tealer.PyView.PyBlock) : D := Id.run do
+  let mut ctx : D := dom.null
+  for _k in [()] do
+    ctx := univ
+  for ins in block.instructions do
+    if ((Tealer.PyView.isClass ins.op "Assert")) then
+      let mut assert_ins_stack_value := ins.sv
+      let mut assert_ins_arg := (assert_ins_stack_value.arg 0)
+      if assert_ins_arg.isUnknown then
+        continue
+      for _k in [()] do
+        let mut (asserted_values, _) := (getAsserted assert_ins_arg)
+        let mut present_values := ctx
+        ctx := (dom.inter present_values asserted_values)
+    else if ((Tealer.PyView.isClass ins.op "Return")) then
+      let mut return_ins_value := ins.sv
+      let mut return_ins_arg := (return_ins_value.arg 0)
+      if return_ins_arg.isUnknown then
+        continue
+      let mut (is_int, value) := (Tealer.Generated.isIntPushIns E return_ins_arg.instruction)
+      if (is_int && ((Tealer.PyView.isIntLit value) && (Tealer.PyView.litOf value == 0))) then
+        for _k in [()] do
+          ctx := dom.null
+        continue
+      for _k in [()] do
+        let mut (true_values, _) := (getAsserted return_ins_arg)
+        let mut present_values := ctx
+        ctx := (dom.inter present_values true_values)
+    else if ((Tealer.PyView.isClass ins.op "Err") || (Tealer.PyView.isClass ins.op "TealerCustomErrInstruction")) then
+      for _k in [()] do
+        ctx := dom.null
+  return ctx
 
 /-- translated from DataflowTransactionContext._path_level_constraints for one key: the entries self._path_contexts[key][b][block] it writes, as a partial function of the successor (a later write to the same successor replaces the earlier one); `getAsserted v` = self._get_asserted(key, v) -/
 def pathLevelConstraints {D : Type} (E : Tealer.PyView.Env) (dom : Tealer.Domain D) (univ : D) (getAsserted : Tealer.PySV → D × D) (self : Tealer.PyView.Env) (key : Tealer.Key) (block : Tealer.PyView.PyBlock) : Nat → Option D := Id.run do
